@@ -30,6 +30,9 @@ ASSUMPTIONS = ["sklearn DBSCAN(min_samples=1) yields the connected "
                "components of the eps-neighbourhood graph (no noise points)"]
 
 MUTANTS = [
+    ("record column b filled with the major axis", "AegeanTools/cluster.py",
+     "        [(s.ra, s.dec, s.a, s.b, s.pa, s.peak_flux)",
+     "        [(s.ra, s.dec, s.a, s.a, s.pa, s.peak_flux)", "C19-R12"),
     ("singleton groups keep their old component number",
      "AegeanTools/cluster.py",
      "    for isle, group in enumerate(groups):\n",
@@ -488,6 +491,7 @@ def run(ctx):
     resize_nan_rule(ctx, prog, "C19-R7")
     r9_greedy(ctx, prog)
     rule_groupby(ctx, prog)
+    rule_record_columns(ctx, prog)
 
 
 def default_linking_length(ctx, prog, rule):
@@ -706,6 +710,47 @@ def resize_nan_rule(ctx, prog, rule):
                   ("unknown (nan)" if at_nan else "positive"), node=iff)
     ctx.floor(rule, n, 3, "rescale statements and psf exclusion tests of "
               "resize")
+
+
+def rule_record_columns(ctx, prog, rule="C19-R12"):
+    """the record array handed to the elliptical-distance regrouping holds,
+    under each column name, the attribute of that name"""
+    ctx.rule(rule, "writer / reader agreement of the record array of "
+             "cluster.regroup: np.rec.fromrecords([(s.<x0>, s.<x1>, ...) for "
+             "s in ...], names=[n0, n1, ...]) stores attribute n_k in column "
+             "n_k (the distance functions read the columns by name)")
+    n = 0
+    for q, fi in sorted(prog.functions.items()):
+        if not fi.module.endswith("cluster"):
+            continue
+        for c in walk_no_nested(fi.node):
+            if not (isinstance(c, ast.Call) and
+                    norm(c.func).split(".")[-1] in ("fromrecords",
+                                                    "fromarrays") and
+                    c.args):
+                continue
+            names = kwarg(c, "names")
+            rows = c.args[0]
+            if not (isinstance(names, (ast.List, ast.Tuple)) and
+                    isinstance(rows, (ast.ListComp, ast.GeneratorExp)) and
+                    isinstance(rows.elt, ast.Tuple)):
+                ctx.unknown_site(rule, fi, "record array not built from a "
+                                 "comprehension of tuples with literal "
+                                 "names", node=c)
+                continue
+            n += 1
+            want = [e.value for e in names.elts
+                    if isinstance(e, ast.Constant)]
+            got = [e.attr if isinstance(e, ast.Attribute) else norm(e)
+                   for e in rows.elt.elts]
+            ctx.check(rule, fi, "columns %s filled with %s" % (want, got),
+                      want == got, "column %r is filled with attribute %r: "
+                      "the elliptical distance then uses the wrong quantity "
+                      "(e.g. the major axis as the minor axis: every source "
+                      "is treated as a circle of radius a)" %
+                      next(((w, g) for w, g in zip(want, got) if w != g),
+                           ("?", "?")), node=c)
+    ctx.floor(rule, n, 1, "record arrays built in cluster.py")
 
 
 def rule_groupby(ctx, prog):
